@@ -149,6 +149,19 @@ def runStep (st : RunSt) (line : String) : RunSt × String :=
     | some m, some w, some r =>
       if 1 ≤ m && m ≤ 16 && 2 ≤ w && w ≤ 64 && 1 ≤ r && r ≤ 100000 then (st, "ok") else (st, "bad-op")
     | _, _, _ => (st, "bad-op")
+  | "stress-firstuse" :: ws =>
+    -- simultaneous arrivals at a fresh quota (its set does not exist yet): `members_le_max_all_schedules` — the set add
+    -- (including the lazy creation of the set) is ONE critical section
+    match kvNat ws "max", kvNat ws "workers", kvNat ws "rounds", kvNat ws "slow" with
+    | some m, some w, some r, some sl =>
+      if 1 ≤ m && m ≤ 16 && 2 ≤ w && w ≤ 64 && 1 ≤ r && r ≤ 100000 && sl ≤ 1 then (st, "ok") else (st, "bad-op")
+    | _, _, _, _ => (st, "bad-op")
+  | "stress-errorreport" :: ws =>
+    -- the proxy's failure report through the real admin route, also while a configuration update is being handled:
+    -- `released_on_proxy_error`
+    match kvNat ws "max" with
+    | some m => if 1 ≤ m && m ≤ 16 then (st, "ok") else (st, "bad-op")
+    | none => (st, "bad-op")
   | "stress-queue" :: ws =>
     -- a Queue processor in front of the quota (no model of the queue here): with nothing in flight every set is empty
     -- (`admitted_holds_slot` / `quiescent_sets_empty`: only transactions in flight hold slots) and newcomers get through
@@ -232,6 +245,10 @@ def judgeStep (s : JudgeSt) (op out : String) : JudgeSt :=
     if out == "ok" then s else { s with verdict := some ("fail - concurrent-Inc-Dec-of-one-request-id:" ++ pctEnc out) }
   | "stress-arrive" :: _ =>
     if out == "ok" then s else { s with verdict := some ("fail - simultaneous-arrivals-exceed-max:" ++ pctEnc out) }
+  | "stress-firstuse" :: _ =>
+    if out == "ok" then s else { s with verdict := some ("fail - simultaneous-first-arrivals-at-a-fresh-quota-exceed-max:" ++ pctEnc out) }
+  | "stress-errorreport" :: _ =>
+    if out == "ok" then s else { s with verdict := some ("fail - proxy-error-report-through-the-admin-route-did-not-release-the-slot:" ++ pctEnc out) }
   | "stress-queue" :: _ =>
     if out == "ok" then s else { s with verdict := some ("fail - queue-in-front-of-the-quota-slot-held-with-nothing-in-flight-or-starved:" ++ pctEnc out) }
   | "stress-realclock" :: _ =>
